@@ -15,7 +15,7 @@ import re
 
 from .. import ast as A
 
-LEDGER = os.path.join(os.path.dirname(os.path.dirname(os.path.dirname(os.path.dirname(os.path.abspath(__file__))))), "rules", "reject_ledger.json")
+LEDGER = os.environ.get("DM_LEDGER") or os.path.join(os.path.dirname(os.path.dirname(os.path.dirname(os.path.dirname(os.path.abspath(__file__))))), "rules", "reject_ledger.json")
 PANIC_MACROS = {"panic", "assert", "assert_eq", "assert_ne"}
 
 
@@ -30,6 +30,9 @@ def _first_str(node):
     return None
 
 
+UNWRAPPING_ADAPTORS = {"and_then", "map", "is_some_and", "is_ok_and", "map_or", "map_or_else", "inspect"}
+
+
 def _lets(fn):
     """single-assignment immutable `let name = init;` bindings of a function (for inlining)"""
     count = {}
@@ -41,9 +44,18 @@ def _lets(fn):
         for n in A.pat_idents(st["pat"]):
             count[n] = count.get(n, 0) + 1
         if A.kind(pat) == "Pat::Ident" and not pat.get("mutability") and not pat.get("by_ref") and st.get("init") and not st["init"].get("diverge"):
-            # a fallible initialiser (`..?`) is an observation of its own, not an alias
-            if not any(A.kind(x) == "Expr::Try" for x, _ in A.walk(st["init"]["expr"])):
-                inits[pat["ident"]["sym"]] = st["init"]["expr"]
+            inits[pat["ident"]["sym"]] = st["init"]["expr"]
+    # the parameter of a closure given to an Option / Result adaptor stands for the value inside the receiver:
+    # `r.and_then(|p| f(p))` tests the same thing as `let p = r?; f(p)`
+    for mc, _ in A.find(fn.block, "Expr::MethodCall"):
+        if mc["method"]["sym"] in UNWRAPPING_ADAPTORS and len(mc["args"]) >= 1 and A.kind(mc["args"][-1]) == "Expr::Closure":
+            cl = mc["args"][-1]
+            if len(cl["inputs"]) == 1:
+                cp = cl["inputs"][0]
+                if A.kind(cp) == "Pat::Type":
+                    cp = cp["pat"]
+                if A.kind(cp) == "Pat::Ident" and not cp.get("by_ref"):
+                    inits.setdefault(cp["ident"]["sym"], {"_": "Expr::Try", "attrs": [], "expr": mc["receiver"]})
     # names also bound by closures / patterns elsewhere are ambiguous
     for x, _ in A.walk(fn.block):
         k = A.kind(x)
@@ -71,6 +83,8 @@ def _inline(text, lets, depth=0):
 
     def sub(m):
         w = m.group(0)
+        if w in lets and text[m.start() - 1 : m.start()] == "|" and text[m.end() : m.end() + 1] == "|":
+            return w  # the closure's own parameter list
         if w in lets:
             r = _r(lets[w])
             if len(r) > 400:
@@ -398,7 +412,37 @@ def collect(ctx):
                 private = vis in (None, "Visibility::Inherited") or A.kind(vis) in (None, "Visibility::Inherited")
                 if len(same_name) == 1 and len(r) == 1 and private and fn.trait_ is None:
                     g, node, ps = r[0]
-                    pre = guard_chain(g, node, ps, _lets(g))
+                    lets_g = _lets(g)
+                    pre = guard_chain(g, node, ps, lets_g)
+                    # the helper's parameters stand for the arguments of that one reference
+                    params = []
+                    for a in fn.node["sig"]["inputs"]:
+                        if A.kind(a) == "FnArg::Typed":
+                            pp = a["0"]["pat"]
+                            params.append(pp["ident"]["sym"] if A.kind(pp) == "Pat::Ident" else None)
+                    rebound = set()
+                    for x_, _p in A.walk(fn.block):
+                        if A.kind(x_) in ("Stmt::Local", "Arm", "Expr::Let", "Expr::ForLoop"):
+                            rebound.update(A.pat_idents(x_["pat"]))
+                        elif A.kind(x_) == "Expr::Closure":
+                            for ci in x_["inputs"]:
+                                rebound.update(A.pat_idents(ci))
+                    sub = {}
+                    parent = ps[-1] if ps else None
+                    if A.kind(node) == "Expr::MethodCall":
+                        args = node["args"]
+                    elif A.kind(parent) == "Expr::Call" and parent["func"] is node:
+                        args = parent["args"]
+                    elif A.kind(parent) == "Expr::MethodCall" and parent["method"]["sym"] in UNWRAPPING_ADAPTORS and any(a is node for a in parent["args"]) and len(params) == 1:
+                        args = [{"_": "Expr::Try", "attrs": [], "expr": parent["receiver"]}]
+                    else:
+                        args = []
+                    if len(args) == len(params):
+                        for pn, a in zip(params, args):
+                            if pn and pn not in rebound:
+                                sub[pn] = a
+                    if sub:
+                        s_["chain"] = [_inline(_inline(c, sub), lets_g) for c in s_["chain"]]
                     s_["chain"] = pre + s_["chain"]
                     s_["fnobj"] = g
                     s_["prefixed"] = s_.get("prefixed", 0) + 1
